@@ -9,8 +9,10 @@ cat "$REPO/go.sum" "$REPO/lib/go/go.sum" go.sum.extra 2>/dev/null | sort -u > go
 T="$(mktemp -d "${VERIF_SCRATCH:-/var/tmp}/verif-setup-XXXXXX")"
 trap 'rm -rf "$T"' EXIT
 set -e
-go build -tags verif -o "$T/vrt" ./cmd/vrt
-go build -race -tags verif -o "$T/vrt-race" ./cmd/vrt
+for d in cmd/*/; do go build -tags verif -o "$T/vrt" "./$d"; done
+for d in c01 c06 c07 c14 c15 c17 c20; do
+  if [ -d "cmd/$d" ]; then go build -race -tags verif -o "$T/vrt-race" "./cmd/$d"; fi
+done
 (cd "$REPO" && go build -o "$T/frugal" .)
 if [ -f java/ParseOnly.java ]; then
   mkdir -p java/classes && javac -d java/classes java/ParseOnly.java
